@@ -144,8 +144,8 @@ func guardDominates(w *World, check *ssa.Call, want bool, action ssa.Instruction
 
 type cmdAnchors struct {
 	readWhisperFile, readWhisperFileLocal, sumWhisperFile, sumWhisperFileLocal, fetchTSL, openOrCreate, update *ssa.Function
-	hdrAIL, wHeader, ailEqual, allEqualTRS, tslDiff, tslDiffEx, plAllEmpty, printDiff, printFileData        *ssa.Function
-	wrapNotExist, asNotExist, syncF, tsFromStd                                                               *ssa.Function
+	hdrAIL, wHeader, ailEqual, allEqualTRS, tslDiff, tslDiffEx, plAllEmpty, printDiff, printFileData           *ssa.Function
+	wrapNotExist, asNotExist, syncF, tsFromStd                                                                 *ssa.Function
 }
 
 func getCmdAnchors(w *World, r *Report, rule string) *cmdAnchors {
